@@ -471,6 +471,27 @@ var natives = map[string]extFn{
 	"(time.Duration).Milliseconds": func(e *Engine, _ *frame, fn *ssa.Function, a []value) value { return uint64(0) },
 	"(*sync.Mutex).Lock": func(e *Engine, _ *frame, _ *ssa.Function, a []value) value { e.raceLock(a[0].(*value)); return nil },
 	"(*sync.Mutex).Unlock": func(e *Engine, _ *frame, _ *ssa.Function, a []value) value { e.raceUnlock(a[0].(*value)); return nil },
+	"(*sync.Mutex).TryLock": func(e *Engine, _ *frame, _ *ssa.Function, a []value) value {
+		if e.lockBusy {
+			return false
+		}
+		e.raceLock(a[0].(*value))
+		return true
+	},
+	"(*sync.RWMutex).TryLock": func(e *Engine, _ *frame, _ *ssa.Function, a []value) value {
+		if e.lockBusy {
+			return false
+		}
+		e.raceLock(a[0].(*value))
+		return true
+	},
+	"(*sync.RWMutex).TryRLock": func(e *Engine, _ *frame, _ *ssa.Function, a []value) value {
+		if e.lockBusy {
+			return false
+		}
+		e.raceLockMode(a[0].(*value), true)
+		return true
+	},
 	"(*sync.RWMutex).Lock": func(e *Engine, _ *frame, _ *ssa.Function, a []value) value { e.raceLock(a[0].(*value)); return nil },
 	"(*sync.RWMutex).Unlock": func(e *Engine, _ *frame, _ *ssa.Function, a []value) value { e.raceUnlock(a[0].(*value)); return nil },
 	"(*sync.RWMutex).RLock": func(e *Engine, _ *frame, _ *ssa.Function, a []value) value { e.raceLockMode(a[0].(*value), true); return nil },
